@@ -77,6 +77,20 @@ func VH_c03_writegate() {
 	default:
 		payload = model.CmdType{LoadControlLimitListData: vhLimitList(newID, true)}
 	}
+	// the optional function element of the command: absent, naming the written function, or naming the other
+	// LoadControl function (the written function is the one whose data the command carries)
+	if dest != w.F2 {
+		switch verifrt.Choice("cmd.function-element", 3) {
+		case 1:
+			payload.Function = util.Ptr(fn)
+		case 2:
+			other := model.FunctionTypeLoadControlLimitDescriptionListData
+			if fnSel == 1 {
+				other = model.FunctionTypeLoadControlLimitListData
+			}
+			payload.Function = util.Ptr(other)
+		}
+	}
 	verifrt.Scenario("write/" + string(fn))
 
 	before := verifrt.Freeze(dest.DataCopy(fn))
